@@ -76,6 +76,9 @@ func hAlias() {
 				inserted = append(inserted, keep)
 			}
 			v := vpU64()
+			if h.onInsert != nil {
+				h.onInsert(keep)
+			}
 			t.Insert(key, v)
 			ref.put(keep, v)
 		case 1:
@@ -83,10 +86,37 @@ func hAlias() {
 		case 2:
 			t.Delete(key)
 			ref.del(keep)
-		case 3:
-			collect(t.Prefix(key))
-		case 4:
-			collect(t.Range(key, key))
+		case 3, 4:
+			// the sequence is obtained, the caller then reuses its buffer, and only then ranges over the sequence:
+			// what it yields must be what the original key asked for
+			var seq func(yield func([]byte, uint64) bool)
+			if op == 3 {
+				seq = t.Prefix(key)
+			} else {
+				seq = t.Range(key, key)
+			}
+			vpAssert(vpEqBytes(buf, before), "C13 the call changed the caller's key bytes or the spare capacity behind them")
+			if kind != 15 && !reuse {
+				for j := range buf {
+					buf[j] = vpU8()
+				}
+				y := collect(seq)
+				var in func(k []byte) bool
+				if op == 3 {
+					in = func(k []byte) bool { return vpHasPrefix(k, keep) }
+					if len(keep) == 0 {
+						in = nil
+					}
+				} else if len(keep) == 0 {
+					in = nil // Range(x, "") on a byte-string tree: from x up to the maximum; x is empty: everything
+				} else {
+					in = func(k []byte) bool { return vpEqBytes(k, keep) }
+				}
+				vpAssert(sortedContent(ref, y, false, in), "C13 a sequence returned by Prefix/Range changed when the caller reused the argument buffer before ranging over it")
+				before = append([]byte(nil), buf...)
+			} else {
+				collect(seq)
+			}
 		}
 		vpAssert(vpEqBytes(buf, before), "C13 the call changed the caller's key bytes or the spare capacity behind them")
 	}
